@@ -207,6 +207,22 @@ func (propC04) Check(t *testing.T, p *Plan, st *Stats) *Violation {
 		for _, k := range seq {
 			got[k]++
 		}
+		// Records the daemon delivered although they lie outside the query's own
+		// [start, end] (it is asked for whole seconds) may be filtered out by the
+		// client or passed on: both are fine. Records inside must all be there.
+		for si := range srcs {
+			kept := srcs[si].recs[:0:0]
+			for _, k := range srcs[si].recs {
+				outside := int64(k.ts) < p.Params.Start || int64(k.ts) > p.Params.End
+				if outside && got[k] == 0 {
+					total -= want[k]
+					delete(want, k)
+					continue
+				}
+				kept = append(kept, k)
+			}
+			srcs[si].recs = kept
+		}
 		for _, s := range srcs {
 			for _, k := range s.recs {
 				if got[k] != want[k] {
